@@ -4,6 +4,7 @@ mod sexp;
 mod agg;
 mod lat;
 mod idx;
+mod uf;
 mod lat_types;
 
 use std::io::{BufRead, Write};
@@ -15,6 +16,7 @@ fn main() {
    let stdout = std::io::stdout();
    let mut out = std::io::BufWriter::new(stdout.lock());
    let mut store = idx::Store::default();
+   let mut ufstore = uf::Store::default();
    for line in stdin.lock().lines() {
       let line = line.unwrap();
       let toks = match sexp::parse_line(&line) {
@@ -31,6 +33,8 @@ fn main() {
       let res = catch_unwind(AssertUnwindSafe(|| match toks[0].atom() {
          Some("agg") => agg::handle(&toks[1..]),
          Some("idx") => store.handle(&toks[1..]),
+         Some("uf") => ufstore.handle_uf(&toks[1..]),
+         Some("tr") => ufstore.handle_tr(&toks[1..]),
          Some("lat") => (|| lat_types::dispatch(toks.get(1)?.atom()?, toks.get(2)?.atom()?, &toks[3..]))(),
          _ => None,
       }));
